@@ -17,3 +17,14 @@ claim("C13", "proof",
       "Must-pass-through proof on the MIR CFG: no path from the return of an abortable search call to a write of the process-wide cache avoids re-testing both abort predicates; aborted nodes return before any effect; every stop condition is sticky or monotone; no other writer of persistent state. Covers every position and every cut point at once, which no run can.",
       "assumes the clock is monotone and SearchLimits is constant during a search (checked); the ply-counter overflow clause is outside the statement (note).",
       "static analysis: CFG must-pass-through + who-may-write over rustc MIR", "DESIGN.md section 3 C13")
+
+
+claim("C10", "other",
+      "Reduces the all-interleavings property to order/ownership facts that hold on every schedule: no store of true into the shared flag reachable from the spawned closure (created true), publication dominates spawn and concerns the same Search, the Stop arm always clears a published flag, the Go arm skips the spawn only on a path control-dependent on the flag still being set while the search clears the flag before printing bestmove, no parsed command is dropped silently, the flag is polled at every node. A scheduler-independent argument, which no finite set of forced schedules gives.",
+      "assumes single-location coherence of Relaxed atomics and a GUI that sends go after bestmove; promptness in wall-clock terms is not decided.",
+      "static analysis: who-may-write + dominance/must-pass-through over rustc MIR", "DESIGN.md section 3 C10")
+
+claim("C15", "other",
+      "Panic-site audit and exit analysis of the whole input-handling layer: every bounds check / range index is entailed by still-valid dominating length tests (difference constraints, reassignment kills a fact), every arithmetic assert discharged, explicit panics / unwrap / may-panic std calls are violations unless proved dead, boundary calls are a confirmed table, the loop exits on end of input, read error and Quit, never blocks, logs and continues on errors. Quantifies over all input lines because it quantifies over all paths.",
+      "assumes valid FEN arguments (statement), open stdout, and that std functions outside the listed may-panic set do not panic; board-layer panics on chess-illegal FENs are out of scope.",
+      "static analysis: panic-site enumeration + difference-constraint bounds discharge + CFG exit analysis over rustc MIR", "DESIGN.md section 3 C15")
